@@ -102,7 +102,8 @@ func (h accountsResourceHandler) ResolveFilter(opts common.ResourceQuery[any], o
 
 		return h.store.db.NewSelect().
 			TableExpr("(?) balance", selectBalance).
-			ColumnExpr(fmt.Sprintf("balance %s ?", common.ConvertOperatorToSQL(operator)), value).
+			// without an asset the sub-select yields one row per asset held: the filter holds if any of them matches
+			ColumnExpr(fmt.Sprintf("bool_or(balance %s ?)", common.ConvertOperatorToSQL(operator)), value).
 			String(), nil, nil
 	case property == "metadata":
 		return "metadata -> ? is not null", []any{value}, nil
